@@ -40,6 +40,10 @@ def descendants(par, a):
   return out
 
 
+def chart_companion_effects(rng, P):
+  return rng.random() < P.get("p_companion", 0.3)
+
+
 def gen_chart(rng, P):
   n = rng.randint(P["nmin"], P["nmax"])
   deep = P["deep"] if rng.random() < 0.8 else rng.random()
@@ -70,6 +74,8 @@ def gen_chart(rng, P):
             k = rng.choice(["post_fifo", "post_lifo", "defer", "recall", "scribble"])
             if rng.random() < P["p_cs"]:
               k = "cs"
+            elif rng.random() < P.get("p_other", 0.1):
+              k = "other"
             if k in ("recall", "cs"):
               lst.append([k])
             elif k == "scribble":
@@ -79,6 +85,13 @@ def gen_chart(rng, P):
           if rng.random() < P.get("p_fault", 0.0):
             lst.append(["raise"])          # fault injection: this handler fails after its other effects
           eff.append([i, sg, lst])
+  if host != "queued" and chart_companion_effects(rng, P):
+    for i in range(1, n + 1):
+      for sg in ["ENTRY_SIGNAL", "EXIT_SIGNAL"] + sigs:
+        if sg in sigs and react[i - 1][sigs.index(sg)][0] not in ("hook", "tran"):
+          continue
+        if rng.random() < 0.25 / (1 + n / 4):
+          eff.append([i, sg, [["other", rng.choice(sigs)]]])
   st = lambda: [rng.choice("hf") for _ in range(n)]
   chart = {
     "n": n, "par": par, "init": init, "sigs": sigs, "react": react, "eff": eff, "bad": [], "build": "dyn", "reg": [],
@@ -104,6 +117,8 @@ def gen_chart(rng, P):
     chart["names"] = ["s%d" % (i + 1) for i in range(n)]
   # handlers as plain functions or as bound methods of a helper object
   chart["hstyle"] = "bound" if rng.random() < P["p_bound"] else "fn"
+  # a second chart object of the same class lives next to this one (and some handlers dispatch into it)
+  chart["companion"] = rng.random() < P.get("p_companion", 0.3)
   return chart
 
 
